@@ -1,4 +1,173 @@
-/- Model driver for C19 (stub: not built yet). -/
+/-
+Model driver for C19: trace validator for QueueSM / PoolSM.
+
+Input: one line per event, `<tid> <tag> <qid> <arg> <payload>`; control lines
+  new queue            start a scenario with plain queues (created by `q-new`)
+  new pool <max> <w,w,…>   start a pool scenario: work queue bound, worker thread ids
+  end                  print a summary of the final model state
+Output: one line per input line: `ok`, `reject <why>` for the first event that is not an
+enabled transition of the model with the same observables, `skip` after a rejection.
+
+Queue tags (payload): q-new(arg=max) push-enter(x) push-test(arg=saw) push-size(arg=n)
+  push-full-waited(arg=n) push-locked(arg=n, woken tid|-) pop-now(arg=n, item|-) pop-block
+  pop-wake(arg=n, item|-) pop-rewait trypop(arg=n, item|-) sd-enter sd-flag sd-locked
+  item = `<producer>:<value>`; in pool mode values are tasks `j.<id>.<v|e>.<n>` / `stop`.
+Pool tags: worker-got(arg=0/1) task-run(payload=id) worker-exit dtor-start dtor-pushed
+  dtor-join(payload=worker) dtor-done future-get(payload=`<id>.<v|e>.<n>`)
+Validation uses `spurious := true` (C++ allows spurious wake-ups).
+-/
+import Osmium.Model.PoolSM
 import Driver.Common
 
-def main : IO Unit := pure ()
+open Osmium Osmium.Mon Driver
+
+inductive Sim where
+  | none
+  | queues (qs : List (Nat × QueueSM.Cfg × QueueSM.State Nat))
+  | pool (c : PoolSM.Cfg) (qid : Option Nat) (s : PoolSM.State)
+  | dead
+
+def parseOutcome (k n : String) : Option PoolSM.Outcome := do
+  let n ← n.toNat?
+  match k with
+  | "v" => some (.value n)
+  | "e" => some (.exc n)
+  | _ => none
+
+def parseTask (s : String) : Option PoolSM.Task :=
+  match s.splitOn "." with
+  | ["stop"] => some .stop
+  | ["j", id, k, n] => do
+    let id ← id.toNat?
+    let o ← parseOutcome k n
+    some (.job id o)
+  | _ => none
+
+def parseNatItem (s : String) : Option (Option (QueueSM.Item Nat)) :=
+  if s == "-" then some none else
+  match s.splitOn ":" with
+  | [p, v] => do
+    let p ← p.toNat?
+    let v ← v.toNat?
+    some (some (p, v))
+  | _ => none
+
+def parseTaskItem (s : String) : Option (Option (QueueSM.Item PoolSM.Task)) :=
+  if s == "-" then some none else
+  match s.splitOn ":" with
+  | [p, v] => do
+    let p ← p.toNat?
+    let v ← parseTask v
+    some (some (p, v))
+  | _ => none
+
+def parseOptTid (s : String) : Option (Option Tid) :=
+  if s == "-" then some none else s.toNat?.map some
+
+/-- queue event from a line; `px` parses an element, `pi` an optional item -/
+def parseQEv {α : Type} (px : String → Option α) (pi : String → Option (Option (QueueSM.Item α)))
+    (t : Tid) (tag : String) (arg : Nat) (pl : String) : Option (QueueSM.Ev α) :=
+  match tag with
+  | "push-enter" => (px pl).map (.pushEnter t)
+  | "push-test" => some (.pushTest t (arg != 0))
+  | "push-size" => some (.pushSize t arg)
+  | "push-full-waited" => some (.pushFullWaited t arg)
+  | "push-locked" => (parseOptTid pl).map (.pushLocked t arg)
+  | "pop-now" => (pi pl).map (.popNow t arg)
+  | "pop-block" => some (.popBlock t)
+  | "pop-wake" => (pi pl).map (.popWake t arg)
+  | "pop-rewait" => some (.popRewait t)
+  | "trypop" => (pi pl).map (.tryPop t arg)
+  | "sd-enter" => some (.sdEnter t)
+  | "sd-flag" => some (.sdFlag t)
+  | "sd-locked" => some (.sdLocked t)
+  | _ => none
+
+def parsePoolEv (t : Tid) (tag : String) (arg : Nat) (pl : String) : Option PoolSM.Ev :=
+  match tag with
+  | "worker-got" => some (.workerGot t (arg != 0))
+  | "task-run" => pl.toNat?.map (.taskRun t)
+  | "worker-exit" => some (.workerExit t)
+  | "dtor-start" => some (.dtorStart t)
+  | "dtor-pushed" => some (.dtorPushed t)
+  | "dtor-join" => pl.toNat?.map (.dtorJoin t)
+  | "dtor-done" => some (.dtorDone t)
+  | "future-get" =>
+    match pl.splitOn "." with
+    | [id, k, n] => do
+      let id ← id.toNat?
+      let o ← parseOutcome k n
+      some (.futureGet t id o)
+    | _ => none
+  | _ => (parseQEv parseTask parseTaskItem t tag arg pl).map .q
+
+def pcName {α : Type} : QueueSM.Pc α → String
+  | .idle => "idle" | .pushEntered _ => "pushEntered" | .pushPolling _ => "pushPolling"
+  | .pushMustWait _ => "pushMustWait" | .pushReady _ => "pushReady" | .popWaiting => "popWaiting"
+  | .sdEntered => "sdEntered" | .sdFlagged => "sdFlagged"
+
+def qDiag {α : Type} (s : QueueSM.State α) (t : Tid) : String :=
+  s!"model: size={s.items.length} in_use={b01 s.inUse} pc[{t}]={pcName (s.pc t)} waiters={s.waiters.length}"
+
+def qSummary {α : Type} (s : QueueSM.State α) : String :=
+  s!"size={s.items.length} in_use={b01 s.inUse} called={s.called.length} pushed={s.pushed.length} dropped={s.dropped.length} removed={s.removed.length} popped={s.popped.length} waiting={s.waiters.length}"
+
+def wpcName : PoolSM.WPc → String
+  | .loop => "loop" | .got _ => "got" | .running _ _ => "running" | .stopping => "stopping"
+  | .exited => "exited"
+
+def dpcName : PoolSM.DPc → String
+  | .notStarted => "notStarted" | .pushing k => s!"pushing{k}" | .joining => "joining" | .done => "done"
+
+def stepLine (sim : Sim) (line : String) : Sim × String :=
+  match words line with
+  | ["new", "queue"] => (.queues [], "ok")
+  | ["new", "pool", mx, ws] =>
+    match mx.toNat?, ((ws.splitOn ",").filter (· ≠ "")).mapM (·.toNat?) with
+    | some mx, some ws => (.pool { workers := ws, qc := { max := mx, spurious := true } } none PoolSM.init, "ok")
+    | _, _ => (.dead, "reject bad-line")
+  | ["end"] =>
+    match sim with
+    | .queues qs => (sim, "final " ++ " ; ".intercalate (qs.map fun (id, _, s) => s!"q{id} " ++ qSummary s))
+    | .pool _ _ s =>
+      (sim, s!"final {qSummary s.q} dtor={dpcName s.dtor} submitted={s.submitted.length} exited={s.exitedL.length} joined={s.joined.length}")
+    | .dead => (sim, "final dead")
+    | .none => (sim, "final none")
+  | [t, tag, qid, arg, pl] =>
+    match sim with
+    | .dead => (sim, "skip")
+    | .none => (.dead, "reject no-scenario")
+    | .queues qs =>
+      match t.toNat?, qid.toNat?, arg.toNat? with
+      | some t, some qid, some arg =>
+        if tag == "q-new" then
+          (.queues ((qid, { max := arg, spurious := true }, QueueSM.init Nat) :: qs.filter (·.1 != qid)), "ok")
+        else
+          match qs.find? (·.1 == qid) with
+          | some (_, c, s) =>
+            match parseQEv (fun s => s.toNat?) parseNatItem t tag arg pl with
+            | some e =>
+              match QueueSM.step? c s e with
+              | some s' => (.queues ((qid, c, s') :: qs.filter (·.1 != qid)), "ok")
+              | none => (.dead, "reject not-enabled " ++ qDiag s t)
+            | none => (.dead, "reject bad-event")
+          | none => (.dead, "reject unknown-queue")
+      | _, _, _ => (.dead, "reject bad-line")
+    | .pool c q0 s =>
+      match t.toNat?, qid.toNat?, arg.toNat? with
+      | some t, some qid, some arg =>
+        match parsePoolEv t tag arg pl with
+        | some e =>
+          -- all queue events of a pool scenario must be on the one work queue
+          let isQ := match e with | .q _ => true | _ => false
+          let q1 := if isQ then (match q0 with | none => some qid | some q => some q) else q0
+          if isQ && q1 != some qid then (.dead, "reject other-queue") else
+          match PoolSM.step? c s e with
+          | some s' => (.pool c q1 s', "ok")
+          | none => (.dead, s!"reject not-enabled {qDiag s.q t} wpc[{t}]={wpcName (s.wpc t)} dtor={dpcName s.dtor}")
+        | none => (.dead, "reject bad-event")
+      | _, _, _ => (.dead, "reject bad-line")
+  | [] => (sim, "ok")
+  | _ => (.dead, "reject bad-line")
+
+def main : IO Unit := loop stepLine .none
